@@ -6,7 +6,7 @@ import json, os, re, subprocess, sys
 ROOT = os.path.dirname(os.path.dirname(os.path.abspath(__file__)))
 sys.path.insert(0, os.path.join(ROOT, "vf"))
 import props
-WT = "/tmp/sev"
+WT = os.environ.get("SEV_WT", "/tmp/sev")
 seeds = sys.argv[1:] or sorted(os.listdir(os.path.join(ROOT, "seeded")))
 subprocess.run("git -C /repo worktree remove --force %s 2>/dev/null; git -C /repo worktree add -q --detach %s HEAD" % (WT, WT), shell=True, check=True)
 out = {}
@@ -40,4 +40,4 @@ try:
         print(sd, json.dumps(res), flush=True)
 finally:
     subprocess.run("git -C /repo worktree remove --force %s" % WT, shell=True)
-json.dump(out, open("/tmp/seed_eval.json", "w"), indent=1)
+json.dump(out, open(os.environ.get("SEV_OUT", "/tmp/seed_eval.json"), "w"), indent=1)
